@@ -10,7 +10,7 @@ from ..rules import typestate as ts
 from ..rules.gvn import GVN, f_key
 from ..rules.match import (m_binop, m_cmp, m_method, m_where, peel_guards, product_factors, strip_real,
                            strip_reshape, sum_terms)
-from ..symex import (T, Evaluator, call_parts, const, getitem, is_const, match_scan, mk, show, strip_wrappers,
+from ..symex import (T, Evaluator, call_parts, const, func_name, getitem, is_const, match_scan, mk, show, strip_wrappers,
                      subterms, sym)
 
 ID = "C10"
@@ -111,7 +111,12 @@ def fast_blocks(ev: Evaluator, body_carry: T, C: T) -> List[Block]:
         guard += 1
         mm = m_binop(D, "*")
         if mm is None:
-            raise AnalysisError("fast CPMC body: overlap update is not ratios * overlaps")
+            # the chain of  overlaps = ratios * overlaps  updates must end at the overlaps carried into the body
+            b = Block()
+            b.problems.append("the incremental overlap update does not start from the carried overlaps: "
+                              + show(D, maxdepth=3)[:80])
+            blocks.append(b)
+            break
         b = Block()
         done = False
         for ratios, dprev in ((mm[0], mm[1]), (mm[1], mm[0])):
@@ -164,7 +169,9 @@ def fast_blocks(ev: Evaluator, body_carry: T, C: T) -> List[Block]:
             done = True
             break
         if not done:
-            raise AnalysisError("fast CPMC body: unmodelled overlap update")
+            b.problems.append("overlap update is not where(mask, ratio_0, ratio_1) * previous overlaps")
+            blocks.append(b)
+            break
     blocks.reverse()
     return blocks
 
@@ -268,6 +275,83 @@ def slow_blocks(ev: Evaluator, body_carry: T, C: T) -> List[Block]:
         blocks.append(b)
     blocks.reverse()
     return blocks
+
+
+
+def _ham_keys(t: T) -> List[str]:
+    return sorted({x.args[1].args[0] for x in subterms(t)
+                   if x.op == "getitem" and x.args[0].op == "sym" and x.args[0].args[0] == "ham_data"
+                   and x.args[1].op == "const" and isinstance(x.args[1].args[0], str)})
+
+
+def hs_table(t: T):
+    """c * array([[exp(a), exp(b)], [exp(c), exp(d)]]) -> (prefactor, gamma, sign pattern) or a problem string."""
+    fs = product_factors(t)
+    arr = [f for f in fs if f.op in ("list", "tuple")]
+    if len(arr) != 1 or len(fs) != 2:
+        return "not prefactor * array([[..], [..]])"
+    pre = [f for f in fs if f is not arr[0]][0]
+    rows = arr[0]
+    if rows.op not in ("list", "tuple") or len(rows.args) != 2 or any(
+            r.op not in ("list", "tuple") or len(r.args) != 2 for r in rows.args):
+        return "table is not 2 x 2"
+    gam, signs = None, []
+    for r in rows.args:
+        for e in r.args:
+            e = strip_wrappers(e)
+            if not (e.op == "call" and func_name(e) in ("jax.numpy.exp", "numpy.exp")):
+                return "table entry is not exp(+-gamma)"
+            a = strip_wrappers(call_parts(e)[1][0])
+            sg = 1
+            if a.op == "unop" and a.args[0] == "-":
+                sg, a = -1, strip_wrappers(a.args[1])
+            if gam is None:
+                gam = a
+            elif gam is not a:
+                return "table entries use different gammas"
+            signs.append(sg)
+    return pre, gam, signs
+
+
+def check_hs_tables(ctx, p):
+    """PAIR-2 on the Hubbard-Stratonovich constant tables + SIB-1 between the classes that build them."""
+    numbered: Dict[str, List[Tuple[str, object]]] = {}
+    shared = None
+    for cls in ("propagator_cpmc", "propagator_cpmc_nn", "propagator_cpmc_nn_slow"):
+        f = p.lookup_method(P + cls, "init_prop_data")
+        run_ = G.StepRun(p, f, P + cls)
+        res = run_.result
+        g = GVN(run_.ev, {})
+        if shared is None:
+            shared = g
+        else:
+            g.atoms, g.atom_keys = shared.atoms, shared.atom_keys
+        names = sorted({e.data[1][0].args[0] for e in run_.events if e.kind == "store" and e.data[1]
+                        and e.data[1][0].op == "const" and isinstance(e.data[1][0].args[0], str)
+                        and e.data[1][0].args[0].startswith("hs_constant")})
+        ctx.ob("PAIR-2", f"{cls}.init_prop_data builds its Hubbard-Stratonovich constant tables",
+               bool(names), f"{names}", f)
+        for name in names:
+            t = strip_wrappers(getitem(res, const(name)))
+            r = hs_table(t)
+            tag = f"{cls}.init_prop_data: table '{name}'"
+            if isinstance(r, str):
+                ctx.ob("PAIR-2", f"{tag} is prefactor * [[e^g, e^-g], [e^-g, e^g]]", False, r, f)
+                continue
+            pre, gam, signs = r
+            ctx.ob("PAIR-2", f"{tag} is prefactor * [[e^g, e^-g], [e^-g, e^g]]", signs == [1, -1, -1, 1],
+                   f"exponent signs {signs}", f)
+            kp, kg = _ham_keys(pre), _ham_keys(gam)
+            ctx.ob("PAIR-2", f"{tag}: prefactor exp(-dt U/2) and gamma = arccosh(exp(dt U/2)) read the same coupling U",
+                   len(kp) == 1 and kp == kg, f"prefactor reads {kp}, gamma reads {kg}", f)
+            want = "u_1" if name.endswith("_nn") else "u"
+            ctx.ob("PAIR-2", f"{tag}: the coupling is ham_data['{want}']", kg == [want], f"gamma reads {kg}", f)
+            numbered.setdefault(name, []).append((cls, f_key(g.number(t))))
+    for name, lst in sorted(numbered.items()):
+        for cls, k in lst[1:]:
+            ctx.ob("SIB-1", f"table '{name}' is the same function of (dt, coupling) in {lst[0][0]} and {cls}",
+                   k == lst[0][1], "equal value numbers" if k == lst[0][1] else "the two builders differ",
+                   p.lookup_method(P + cls, "init_prop_data"))
 
 
 def scans_of(run_: G.StepRun) -> List[T]:
@@ -396,6 +480,7 @@ def run(ctx):
                f"{on}", nstep)
     else:
         ctx.ob("PAIR-2", "propagator_cpmc_nn: on-site scan followed by neighbour scan", False, f"{len(nres)} scans", nstep)
+    check_hs_tables(ctx, p)
     if n_blocks < 12 and not truncated:
         raise AnalysisError(f"only {n_blocks} CPMC update blocks recognised")
     # typestate over the sampler for the four classes
